@@ -4,7 +4,7 @@
    fpy2/transform/path.py, cursor.py, utils.py, fpy2/function.py). *)
 From Coq Require Import ZArith List Bool Permutation.
 From FpyV Require Import Cursor.Path Cursor.Edit Cursor.Forward Cursor.Sites
-  Cursor.ForwardProofs Cursor.SitesProofs.
+  Cursor.ForwardProofs Cursor.SitesProofs Cursor.TreeSitesProofs.
 Import ListNotations.
 Open Scope Z_scope.
 
@@ -100,6 +100,50 @@ Theorem C19_only_reference_errors : forall chain c x, chain_forward chain c = Er
 Proof. exact chain_forward_err. Qed.
 Print Assumptions C19_only_reference_errors.
 
+(* A cursor taken in program g (on the chain) and replayed to the newest
+   program names a statement whose label is the original one or one some pass
+   on the way introduced (the replacing statement / region) — never the label
+   of another original statement.
+   PARTIAL: the steps whose image is a region (`_forward_region`) are excluded
+   by `stmt_only`; region steps are covered by the correspondence (part A:
+   CChain with regions, part B) only. *)
+Theorem C19_chain_descendant_partial : forall chain fn0 p0 g s0 c',
+  chain_wf chain ->
+  find_root chain fn0 = Some g -> resolve_stmt (f_tree g) p0 = Ok s0 ->
+  stmt_only chain (CStmt fn0 p0) ->
+  chain_forward chain (CStmt fn0 p0) = Ok c' ->
+  match chain with
+  | f :: _ => tracks (label s0) (new_labels chain) f c'
+  | [] => False
+  end.
+Proof. exact chain_descendant_partial. Qed.
+Print Assumptions C19_chain_descendant_partial.
+
+Example C19_chain_example :
+  let t0 := [SLeaf 1; SLeaf 2] in
+  let e1 := [Edit FuncBody 0 0 [SLeaf 10]] in
+  let t1 := apply e1 t0 in
+  let e2 := [Edit FuncBody 2 1 [SLeaf 20]] in
+  let t2 := apply e2 t1 in
+  let chain := [Func 2 t2 (Some (ELog 1 2 t2 e2 [] true)); Func 1 t1 (Some (ELog 0 1 t1 e1 [] true)); Func 0 t0 None] in
+  chain_wf chain /\ stmt_only chain (CStmt 0 (FuncBody, 0)) /\
+  chain_forward chain (CStmt 0 (FuncBody, 0)) = Ok (CStmt 2 (FuncBody, 1)) /\
+  chain_forward chain (CStmt 0 (FuncBody, 1)) = Ok (CStmt 2 (FuncBody, 2)).
+Proof.
+  cbv zeta. split; [|split; [|split]]; [|vm_compute; tauto|vm_compute; reflexivity|vm_compute; reflexivity].
+  simpl chain_wf. unfold log_faithful. simpl l_edits. simpl l_rtree. simpl f_tree.
+  repeat split; try reflexivity; intros e [<-|[]]; reflexivity.
+Qed.
+Print Assumptions C19_chain_example.
+
+(* ---- expression cursors ---- *)
+Theorem C19_expr_cursor_rule : forall lg fn p sfx c',
+  forward lg (CExpr fn p sfx) = Ok c' ->
+  fn = l_src lg /\ l_preserved lg = true /\ existsb (spath_eqb p) (l_dirty lg) = false /\
+  exists b i, forward_stmt (l_edits lg) p = Ok (b, i, None) /\ c' = CExpr (l_res lg) (b, i) sfx.
+Proof. exact expr_cursor_rule. Qed.
+Print Assumptions C19_expr_cursor_rule.
+
 (* ---- the `where` contract of a site rewriter ---- *)
 Theorem C19_site_index_all : forall (C : Type) (refuses : C -> bool) cs,
   run refuses None cs = Ok (list_sites refuses cs).
@@ -128,3 +172,31 @@ Theorem C19_refusals_take_no_index : forall (C : Type) (refuses : C -> bool) cs 
   run refuses w cs = run refuses w (filter (fun c => negb (refuses c)) cs).
 Proof. exact @refusals_take_no_index. Qed.
 Print Assumptions C19_refusals_take_no_index.
+
+(* ---- the same contract for the walk over a statement tree, where the blocks
+   of a rewritten candidate are visited `reps` more times (`_WhileUnroll`
+   re-visits the body `times + 1` times, inflating `site_idx`) ---- *)
+Theorem C19_tree_site_index_one : forall cand refuses reps j t l,
+  nthZ j (tsites cand refuses t) = Some l -> trun cand refuses reps (Some j) t = Ok [l].
+Proof. exact tree_site_index_one. Qed.
+Print Assumptions C19_tree_site_index_one.
+
+Theorem C19_tree_site_index_reject : forall cand refuses reps j t,
+  j < 0 \/ zlen (tsites cand refuses t) <= j -> trun cand refuses reps (Some j) t = Err RefErr.
+Proof. exact tree_site_index_reject. Qed.
+Print Assumptions C19_tree_site_index_reject.
+
+Theorem C19_tree_site_index_all : forall cand refuses reps t,
+  exists rw, trun cand refuses reps None t = Ok rw /\ (forall l, In l rw <-> In l (tsites cand refuses t)).
+Proof. exact tree_site_index_all. Qed.
+Print Assumptions C19_tree_site_index_all.
+
+Example C19_tree_site_example :
+  let t := [SOne 1 [SOne 2 [SLeaf 3]]; SOne 4 [SLeaf 5]] in
+  let cand := fun s => match s with SOne _ _ => true | _ => false end in
+  let refuses := fun s => label s =? 2 in
+  tsites cand refuses t = [1; 4] /\ trefusals cand refuses t = [2] /\
+  trun cand refuses 2 (Some 1) t = Ok [4] /\ trun cand refuses 2 (Some 2) t = Err RefErr /\
+  trun cand refuses 2 None t = Ok [1; 4].
+Proof. vm_compute. repeat split; reflexivity. Qed.
+Print Assumptions C19_tree_site_example.
